@@ -484,7 +484,7 @@ def run(ctx):
     ctx.cov['expr_events'] = n_expr
     # ---------------- statements ----------------
     d.restart()
-    stmt_count = {'midset': 0, 'lset': 0, 'rset': 0, 'self': 0, 'field': 0, 'array': 0, 'codelit': 0, 'fresh': 0}
+    stmt_count = {'midset': 0, 'lset': 0, 'rset': 0, 'self': 0, 'field': 0, 'array': 0, 'codelit': 0, 'fresh': 0, 'self_plus_empty': 0}
 
     def stmt_event(i):
         cur[0] = 'statement set-up'
@@ -539,6 +539,14 @@ def run(ctx):
         if selfsrc:
             src = {'t': 's', 'v': list(before), 'src': tname}
             stmt_count['self'] += 1
+            if rng.random() < 0.4:
+                # the target concatenated with empty strings: an expression VALUE, not the target itself (the statement's
+                # overlapping-copy behaviour for a plain self-source must not apply; round-3 seeded change C09c)
+                empty = {'t': 's', 'v': [], 'src': '""'}
+                for _ in range(rng.randint(1, 2)):
+                    src = {'t': 'f', 'op': 'cat', 'a': [src, empty] if rng.random() < 0.6 else [empty, src]}
+                selfsrc = False
+                stmt_count['self_plus_empty'] += 1
         else:
             src = g.gen_str(rng.choice([0, 0, 1, 1, 2]), True)
         e = {'op': kind, 't': list(before), 'src': strip(src), 'self': selfsrc}
